@@ -259,6 +259,9 @@ func runC17(p *P, r *R) {
 		r.ob("R17.4", "OpenStream: a closed session yields its shutdown error at once", p.pos(os.Pos()), ok, true, "calls made in between fail rather than hang")
 	}
 	_ = types.Typ
+	// R17.6 the watchers only sleep while the manager is in hotRestartState: that state must always be left (the checker
+	// is armed on every path that enters it) or lost sessions are never rebuilt again (shared with C16 R16.1 / R16.2)
+	borrow(p, r, "C16", runC16, map[string]string{"R16.1": "R17.6", "R16.2": "R17.6"}, func(o Ob) bool { return constructHas(o, "SessionManager", "handleSessionManagerHotRestart") })
 }
 
 // watcherEpochTest (R17.2 / R16.6): the watcher that rebuilds a lost session decides "this pool was
